@@ -417,6 +417,50 @@ def check_icf_full_state(rep, mod):
 
 
 
+def check_out8_guard_c(rep, mod):
+    """The bit buffer writes whole 64-bit words at its cursor: write_bits / write_bits_flush / flush store 8 bytes whatever the number of bits.  A streaming routine that points
+    the bit buffer at the caller's next_out may therefore only write when at least 8 bytes of output are left - not when the handful of bytes it logically produces would fit."""
+    R = rep.rule('R-OUT8-GUARD-C', 'streaming C routines that point the bit buffer at next_out (sync_flush, write_header, write_type0_header, flush_write_buffer, write_trailer): every call of write_bits / '
+                 'write_bits_flush / flush is unreachable once the edges that establish avail_out >= 8 (avail_out compared with a constant: >= c with c >= 8, > c with c >= 7, or the continuing edge of '
+                 '< c / <= c) are removed from the flow graph: the unconditional 8-byte store of the bit buffer stays inside the output space', floor=5, unit='functions')
+    ao = c19.field_offsets('struct isal_zstream', ['avail_out'])['avail_out']
+    for fn in ('sync_flush', 'write_header', 'write_type0_header', 'flush_write_buffer', 'write_trailer'):
+        f = mod.funcs.get(fn)
+        if f is None:
+            raise AnalysisBroken('%s not found' % fn)
+        R.instance()
+        P = irrules.prov(mod, f)
+        calls = [i for i in f.all_insns() if i.op == 'call' and i.callee in ('write_bits', 'write_bits_flush', 'flush', 'write_bits_unsafe')]
+        if not calls:
+            raise AnalysisBroken('%s: no bit-buffer write found' % fn)
+        safe = set()
+        for b, t, c in irrules.cond_branches(mod, f):
+            if c is None or c.op != 'icmp':
+                continue
+            for x, y, flip in ((c.ops[0], c.ops[1], False), (c.ops[1], c.ops[0], True)):
+                d = f.defs.get(irrules._strip(f, x))
+                if d is None or d.op != 'load' or P.atoms(d.ops[0]) != {('param', 0, ao)} or not re.match(r'^\d+$', y):
+                    continue
+                k, pred = int(y), c.extra['pred']
+                if flip:
+                    pred = {'ult': 'ugt', 'ule': 'uge', 'ugt': 'ult', 'uge': 'ule'}.get(pred, pred)
+                tt, tf = t.extra['targets']
+                if (pred == 'uge' and k >= 8) or (pred == 'ugt' and k >= 7):
+                    safe.add((b, tt))
+                if (pred == 'ult' and k >= 8) or (pred == 'ule' and k >= 7):
+                    safe.add((b, tf))
+        seen, work = set(), [f.entry()]
+        while work:
+            b = work.pop()
+            if b in seen:
+                continue
+            seen.add(b)
+            work += [s_ for s_ in f.blocks[b].succs if (b, s_) not in safe]
+        bad = [c for c in calls if c.block in seen]
+        R.check(not bad, mod.where(f, bad[0]) if bad else mod.where(f, None), '%s calls %s on a path that never established avail_out >= 8: the bit buffer stores a 64-bit word at next_out, so up to 7 bytes '
+                'behind the caller\'s output space are overwritten' % (fn, bad[0].callee if bad else ''), key='R-OUT8-GUARD-C|%s' % fn, sample='%s: %d bit-buffer write(s) behind avail_out >= 8' % (fn, len(calls)))
+
+
 def check_eos_truth(rep, mod):
     """end_of_stream is documented as "non-zero if this is the last input buffer": every place that consults it has to test it against zero.  A comparison with 1 treats the
     value 2 as "not the end": the level-0 finish emits a sync flush instead of the trailer and the stream never reaches the end state."""
@@ -492,6 +536,7 @@ def main(tier):
     rep.attempt(progress.check, rep, mod, 20)
     rep.attempt(check_icf_full_state, rep, mod)
     rep.attempt(check_eos_truth, rep, mod)
+    rep.attempt(check_out8_guard_c, rep, mod)
     import siblings
     _names = ['total_in_start', 'block_next', 'block_end', 'dist_mask', 'hash_mask', 'state', 'bitbuf', 'crc', 'has_wrap_hdr', 'has_eob_hdr', 'has_eob', 'has_hist', 'has_level_buf_init', 'count', 'tmp_out_buff',
               'tmp_out_start', 'tmp_out_end', 'b_bytes_valid', 'b_bytes_processed', 'buffer', 'head']
